@@ -66,7 +66,7 @@ def run_source(src, env):
     fails = []
     why = None
     sig = None
-    if out[0] == 'any':
+    if out[0] in ('any', 'other'):
         if gk == 'value':
             sig, why = 'class:error-expected', f'reference: some error; implementation returned {got!r}'
     elif out[0] != gk:
